@@ -250,39 +250,80 @@ def run_numeric(case):
 
 
 def run_updates(case):
-    """E1: every sequence of <= 3 update_estimates calls from a 4-vector alphabet equals one update with the
-    sum; read-back; reset."""
+    """E1: every operation sequence of length <= 4 over {update(a_0..a_3), correct, reset} on ONE live model
+    object, against a reference model (accumulated sum since the last reset, own linear solve): estimates read
+    back as the sum, several updates equal one update with the sum, and correct_increments always uses the
+    CURRENT estimates whatever was called before."""
     from pyins import inertial_sensor as isn
     viol = []
-    model = isn.EstimationModel(bias_sd=[0.1, 0, 0.1], scale_misal_sd=[[1e-2, 0, 1e-2], [0, 0, 1e-2], [1e-2, 0, 0]])
-    n = model.n_states
-    alpha = [np.array([0.5 ** (k + i) * (-1) ** i for i in range(n)]) for k in range(4)]
+
+    def v(sig, msg):
+        if len(viol) < 20:
+            viol.append(dict(sig=sig, msg=msg))
+
+    def fresh():
+        return isn.EstimationModel(bias_sd=[0.1, 0, 0.1], scale_misal_sd=[[1e-2, 0, 1e-2], [0, 0, 1e-2], [1e-2, 0, 0]])
+
+    proto = fresh()
+    n = proto.n_states
+    alpha = [np.array([0.5 ** (k + i + 2) * (-1) ** i for i in range(n)]) for k in range(4)]
+    t = stamps_of('irregular')
+    dt = np.hstack([t[1] - t[0], np.diff(t)])
+    k_ = np.arange(len(t))
+    r = np.stack([0.3 * np.sin(0.7 * k_ + 0.1) + 0.05, -0.2 * np.cos(1.1 * k_), 0.1 + 0.07 * k_], axis=1)
+    table = pd.DataFrame(r, index=pd.Index(t, name='time'), columns=['dv_x', 'dv_y', 'dv_z'])
+    dts = pd.Series(dt, index=table.index)
+
+    def expected_correct(total):
+        T = np.eye(3)
+        b = np.zeros(3)
+        for name, val in zip(proto.states, total):
+            kind, ax = name.split('_')
+            if kind == 'bias':
+                b['xyz'.index(ax)] += val
+            else:
+                T['xyz'.index(ax[0]), 'xyz'.index(ax[1])] += val
+        return np.linalg.solve(T, (r - b * dt[:, None]).T).T, np.linalg.cond(T)
+
+    ops = ['U0', 'U1', 'U2', 'U3', 'C', 'R']
     states = set()
     trans = 0
-    for L in range(0, 4):
-        for seq in itertools.product(range(4), repeat=L):
-            model.reset_estimates()
-            for s in seq:
-                snap = alpha[s].copy()
-                model.update_estimates(alpha[s])
+    for L in range(0, 5):
+        for seq in itertools.product(ops, repeat=L):
+            if L == 4 and 'C' not in seq:
+                continue        # length-4 sequences are only needed for the interleavings with correct
+            model = fresh()
+            total = np.zeros(n)
+            for op in seq:
                 trans += 1
-                if (alpha[s] != snap).any():
-                    viol.append(dict(sig='c14-arg-mutated', msg='update_estimates modified its argument'))
+                if op == 'R':
+                    model.reset_estimates()
+                    total = np.zeros(n)
+                elif op == 'C':
+                    got = model.correct_increments(dts, table).values
+                    exp, cond = expected_correct(total)
+                    if np.abs(got - exp).max() > 64 * EPS * cond:
+                        v('c14-correct-uses-stale-estimates', 'after %s correct_increments differs from the '
+                          'correction with the current estimates by %.3e' % (list(seq), np.abs(got - exp).max()))
+                else:
+                    a = alpha[int(op[1])]
+                    snap = a.copy()
+                    model.update_estimates(a)
+                    total = total + a
+                    if (a != snap).any():
+                        v('c14-arg-mutated', 'update_estimates modified its argument')
             got = model.get_estimates().values
-            ref = isn.EstimationModel(bias_sd=[0.1, 0, 0.1],
-                                      scale_misal_sd=[[1e-2, 0, 1e-2], [0, 0, 1e-2], [1e-2, 0, 0]])
-            total = sum((alpha[s] for s in seq), np.zeros(n))
-            ref.update_estimates(total)
-            exp = ref.get_estimates().values
             states.add(got.tobytes())
-            if np.abs(got - exp).max() > 4 * EPS:
-                viol.append(dict(sig='c14-accumulation', msg='updates %s give %s, one update with the sum gives '
-                                 '%s' % (seq, got.tolist(), exp.tolist())))
-            if np.abs(got - total).max() > 4 * EPS:
-                viol.append(dict(sig='c14-estimates-read-back', msg='get_estimates after %s is not the sum' % (seq,)))
+            if np.abs(got - total).max() > 8 * EPS:
+                v('c14-accumulation', 'after %s get_estimates gives %s, the sum of the updates since the last '
+                  'reset is %s' % (list(seq), got.tolist(), total.tolist()))
+            one = fresh()
+            one.update_estimates(total)
+            if np.abs(one.get_estimates().values - got).max() > 8 * EPS:
+                v('c14-accumulation', 'several updates %s differ from one update with their sum' % (list(seq),))
     try:
-        model.update_estimates(np.zeros(n + 1))
-        viol.append(dict(sig='c14-update-length', msg='update_estimates accepted a vector of the wrong length'))
+        fresh().update_estimates(np.zeros(n + 1))
+        v('c14-update-length', 'update_estimates accepted a vector of the wrong length')
     except ValueError:
         pass
     return viol, dict(update_states=len(states), update_transitions=trans), trans
